@@ -327,6 +327,7 @@ RULES = [
 from ..selftest import M  # noqa: E402
 F = 'txtorcon/torcontrolprotocol.py'
 MUTANTS = [
+    M('code-600-refused', F, "        elif self.code >= 600 and self.code < 700:", "        elif self.code > 600 and self.code < 700:", ['R02.1']),
     M('payload-by-whitespace-split', F, "self.events[name].got_update(rest[len(name) + 1:])", "self.events[name].got_update(rest.split(None, 1)[1] if len(rest.split(None, 1)) > 1 else '')", ['R02.6']),
     M('event-falls-through', F, "            self._handle_notify(self.code, resp)\n            self.code = None\n            return\n", "            self._handle_notify(self.code, resp)\n", ['R02.1']),
     M('event-fires-defer', F, "            self._handle_notify(self.code, resp)\n", "            self._handle_notify(self.code, resp)\n            if self.defer:\n                self.defer.callback(resp)\n", ['R02.1']),
